@@ -290,7 +290,9 @@ func VH_C15_descs() {
 					kinds = append(kinds, j%7)
 				}
 			} else {
-				kinds = []int{6, 5, 0}
+				for j := 0; j < 33; j++ { // more than 31: the count field is 6 bits wide
+					kinds = append(kinds, (j+3)%7)
+				}
 			}
 		}
 		d, enc := c15desc(fmt.Sprintf("d%d", i), op, kinds)
